@@ -82,7 +82,7 @@ def cases(tier, seed):
     out = []
     seen = set()
     # (a) construction
-    for q, dspec in c01.cases("quick" if BOUNDS[tier]["construction_leaves"] == 2 else "thorough", seed):
+    for q, dspec in (c[:2] for c in c01.cases("quick" if BOUNDS[tier]["construction_leaves"] == 2 else "thorough", seed)):
         if q in seen:
             continue
         nleaves = sum(1 for s in (fol.subconds(q[3]) if q[3] else ()) if s[0] not in ("and", "or", "not"))
